@@ -555,4 +555,226 @@ theorem deletes_ok_synced (s : PState) (m : Payload) (dels : List Path)
     refine ⟨?_, j1⟩
     simp [violations, hc, referencedBy, hp.1, hp.2]
 
+/-! ## the writer model: events of the segment updater and its workers -/
+
+/-- `save_metas` + the collection that follows it, as issued by both `schedule_commit` and
+`end_merge` (before the acknowledgement): new files, syncs, meta.json, syncs, GC -/
+def coreOps (a b : Nat) (managed m : Payload) (newFiles : List (Path × Nat)) (dels : List Path) : List Op :=
+  writeAll managed newFiles ++ (syncs (a + 1) ++ ([Op.atomicWrite META m] ++ (syncs (b + 1) ++
+    (dels.map Op.delete ++ (if dels.isEmpty then [] else [.syncDir, .atomicWrite MANAGED managed])))))
+
+/-- the optional tail of a collection (`sync_directory; save_managed_paths`) keeps a synced meta -/
+theorem gc_tail (st : PState) (m managed : Payload) (dels : List Path) (hc : metaCands st = [m]) :
+    Disciplined st (if dels.isEmpty then [] else [.syncDir, .atomicWrite MANAGED managed]) = true ∧
+    metaCands (st.run (if dels.isEmpty then [] else [.syncDir, .atomicWrite MANAGED managed])) = [m] ∧
+    (st.run (if dels.isEmpty then [] else [.syncDir, .atomicWrite MANAGED managed])).started = st.started := by
+  have hM : MANAGED ≠ META := by decide
+  by_cases he : dels.isEmpty = true
+  · simp only [he, if_true]
+    exact ⟨rfl, hc, rfl⟩
+  · simp only [he, Bool.false_eq_true, if_false]
+    have h1 : metaCands (st.step .syncDir) = [m] := by
+      rw [metaCands_step_sync]
+      have : (metaCands st).getLast? = some m := by rw [hc]; rfl
+      unfold metaCands at this
+      rw [cands_getLast] at this
+      rw [this]; rfl
+    refine ⟨?_, ?_, ?_⟩
+    · simp [Disciplined, disciplinedBy, violations, hM]
+    · show metaCands ((st.step .syncDir).step (.atomicWrite MANAGED managed)) = [m]
+      rw [metaCands_step_other _ _ (by intro e; cases e) (by intro b' e; cases e)]
+      exact h1
+    · simp [PState.run, PState.step, hM]
+
+theorem deletes_started (s : PState) (dels : List Path) : (s.run (dels.map Op.delete)).started = s.started := by
+  induction dels generalizing s with
+  | nil => rfl
+  | cons p t ih =>
+    simp only [List.map_cons, run_cons]
+    rw [ih]; rfl
+
+theorem core_disciplined (a b : Nat) (s : PState) (managed m : Payload)
+    (newFiles : List (Path × Nat)) (dels : List Path)
+    (hfresh : ∀ f ∈ newFiles, (s.dir.file f.1).ever = false ∧ (s.dir.file f.1).vis = false ∧ (s.dir.file f.1).dur = false)
+    (hnodup : (newFiles.map Prod.fst).Nodup)
+    (hrefs : ∀ p ∈ m.refs, p ∈ newFiles.map Prod.fst ∨ (s.dir.file p).ready = true)
+    (hmono : s.started ≤ m.commit)
+    (hdels : ∀ p ∈ dels, p ≠ META ∧ p ∉ m.refs) :
+    Disciplined s (coreOps a b managed m newFiles dels) = true ∧
+    metaCands (s.run (coreOps a b managed m newFiles dels)) = [m] ∧
+    (s.run (coreOps a b managed m newFiles dels)).started = m.commit := by
+  let sel : Rule → Bool := fun _ => true
+  obtain ⟨w1, w2, w3, w4, _⟩ := writeAll_effect sel managed newFiles s hfresh hnodup
+  let s1 := s.run (writeAll managed newFiles)
+  have hready : ∀ p ∈ m.refs, (s1.dir.file p).ready = true := by
+    intro p hp
+    by_cases hin : p ∈ newFiles.map Prod.fst
+    · obtain ⟨f, hf, e⟩ := List.mem_map.mp hin
+      rw [← e]
+      exact w2 f hf
+    · rcases hrefs p hp with h | hr
+      · exact absurd h hin
+      · show ((s.run (writeAll managed newFiles)).dir.file p).ready = true
+        rw [w3 p hin]; exact hr
+  let s2 := s1.run (syncs (a + 1))
+  have hfirm : refsAllFirm s2 m = true := by
+    unfold refsAllFirm
+    apply List.all_eq_true.mpr
+    intro p hp
+    exact syncs_succ_ready_firm s1 a p (hready p hp)
+  have hstarted : s2.started ≤ m.commit := by
+    show (s1.run (syncs (a + 1))).started ≤ _
+    rw [syncs_started]
+    show (s.run (writeAll managed newFiles)).started ≤ _
+    rw [w4]; exact hmono
+  have hvw : violations s2 (.atomicWrite META m) = [] := by
+    simp [violations, hfirm, hstarted]
+  let s3 := s2.step (.atomicWrite META m)
+  have hst3 : s3.started = m.commit := by simp [s3, PState.step]
+  have hlast3 : (metaCands s3).getLast? = some m := by
+    show (metaCands (s2.step (.atomicWrite META m))).getLast? = some m
+    rw [metaCands_step_write]
+    simp
+  let s4 := s3.run (syncs (b + 1))
+  have hc4 : metaCands s4 = [m] := syncs_succ_cands s3 b m hlast3
+  obtain ⟨d1, d2⟩ := deletes_ok_synced s4 m dels hc4 hdels
+  let s5 := s4.run (dels.map Op.delete)
+  obtain ⟨t1, t2, t3⟩ := gc_tail s5 m managed dels d2
+  refine ⟨?_, ?_, ?_⟩
+  · unfold Disciplined coreOps
+    rw [disciplinedBy_append, disciplinedBy_append, disciplinedBy_append, disciplinedBy_append,
+      disciplinedBy_append]
+    simp only [Bool.and_eq_true]
+    refine ⟨w1, syncs_disciplined sel s1 (a + 1), ?_, syncs_disciplined sel _ (b + 1), d1, t1⟩
+    show disciplinedBy sel s2 [Op.atomicWrite META m] = true
+    simp [disciplinedBy, hvw]
+  · unfold coreOps
+    rw [run_append, run_append, run_append, run_append, run_append]
+    exact t2
+  · unfold coreOps
+    rw [run_append, run_append, run_append, run_append, run_append]
+    show (s5.run _).started = m.commit
+    rw [t3]
+    show (s4.run (dels.map Op.delete)).started = m.commit
+    rw [deletes_started]
+    show (s3.run (syncs (b + 1))).started = m.commit
+    rw [syncs_started]; exact hst3
+
+/-! ## the writer as a sequence of events -/
+
+/-- what the segment updater and its workers do to storage, one event per task:
+a worker or merge thread writes the files of a segment; `schedule_commit`; `end_merge` of
+committed segments (same opstamp, new `meta.json`); an explicit or policy-independent collection.
+A policy switch (`set_merge_policy`) only changes WHICH of these events occur. -/
+inductive WEv
+  | flush (managed : Payload) (files : List (Path × Nat))
+  | commit (managed : Payload) (files : List (Path × Nat)) (m : Payload) (dels : List Path)
+  | endMerge (managed : Payload) (files : List (Path × Nat)) (m : Payload) (dels : List Path)
+  | gc (managed : Payload) (dels : List Path)
+
+/-- storage operations of one event, `save_metas` in the shape `sync^(a+1); write; sync^(b+1)`
+-- mirrors: segment_updater.rs::schedule_commit, end_merge, garbage_collect_files; index_writer.rs::index_documents -/
+def WEv.ops (a b : Nat) : WEv → List Op
+  | .flush mg fs => writeAll mg fs
+  | .commit mg fs m dels => coreOps a b mg m fs dels ++ [.ack m.commit]
+  | .endMerge mg fs m dels => coreOps a b mg m fs dels
+  | .gc mg dels => dels.map Op.delete ++ (if dels.isEmpty then [] else [.syncDir, .atomicWrite MANAGED mg])
+
+def freshFiles (s : PState) (fs : List (Path × Nat)) : Prop :=
+  (∀ f ∈ fs, (s.dir.file f.1).ever = false ∧ (s.dir.file f.1).vis = false ∧ (s.dir.file f.1).dur = false) ∧
+  (fs.map Prod.fst).Nodup
+
+/-- local side conditions of an event in the state it starts from: new files are fresh; a new
+`meta.json` references only those or files already visible and terminated and does not go back
+in opstamps; a collection spares `meta.json` and what the newest `meta.json` references (that is
+`list_files` ⊇ committed metas ∪ {meta.json}) -/
+def WOk (s : PState) : WEv → Prop
+  | .flush _ fs => freshFiles s fs
+  | .commit _ fs m dels | .endMerge _ fs m dels =>
+    freshFiles s fs ∧ (∀ p ∈ m.refs, p ∈ fs.map Prod.fst ∨ (s.dir.file p).ready = true) ∧
+    s.started ≤ m.commit ∧ (∀ p ∈ dels, p ≠ META ∧ p ∉ m.refs)
+  | .gc _ dels => ∀ m, metaCands s = [m] → ∀ p ∈ dels, p ≠ META ∧ p ∉ m.refs
+
+def WRun (a b : Nat) : PState → List WEv → Prop
+  | _, [] => True
+  | s, e :: es => WOk s e ∧ WRun a b (s.run (e.ops a b)) es
+
+/-- the newest `meta.json` is durable and is the only candidate -/
+def Synced (s : PState) : Prop := ∃ m, metaCands s = [m]
+
+theorem wev_step (a b : Nat) (s : PState) (hs : Synced s) (e : WEv) (hok : WOk s e) :
+    Disciplined s (e.ops a b) = true ∧ Synced (s.run (e.ops a b)) := by
+  obtain ⟨m0, hm0⟩ := hs
+  cases e with
+  | flush mg fs =>
+    obtain ⟨w1, _, _, _, w5⟩ := writeAll_effect (fun _ => true) mg fs s hok.1 hok.2
+    exact ⟨w1, m0, by rw [WEv.ops, w5]; exact hm0⟩
+  | commit mg fs m dels =>
+    obtain ⟨⟨hf, hn⟩, hr, hmo, hd⟩ := hok
+    obtain ⟨c1, c2, _⟩ := core_disciplined a b s mg m fs dels hf hn hr hmo hd
+    refine ⟨?_, m, ?_⟩
+    · unfold Disciplined WEv.ops
+      rw [disciplinedBy_append, Bool.and_eq_true]
+      refine ⟨c1, ?_⟩
+      simp [disciplinedBy, violations, c2]
+    · simp only [WEv.ops, run_append]
+      show metaCands ((s.run (coreOps a b mg m fs dels)).step (.ack m.commit)) = [m]
+      rw [metaCands_step_other _ _ (by intro e; cases e) (by intro b' e; cases e)]
+      exact c2
+  | endMerge mg fs m dels =>
+    obtain ⟨⟨hf, hn⟩, hr, hmo, hd⟩ := hok
+    obtain ⟨c1, c2, _⟩ := core_disciplined a b s mg m fs dels hf hn hr hmo hd
+    exact ⟨c1, m, c2⟩
+  | gc mg dels =>
+    have hd := hok m0 hm0
+    obtain ⟨d1, d2⟩ := deletes_ok_synced s m0 dels hm0 hd
+    obtain ⟨t1, t2, _⟩ := gc_tail (s.run (dels.map Op.delete)) m0 mg dels d2
+    refine ⟨?_, m0, ?_⟩
+    · unfold Disciplined WEv.ops
+      rw [disciplinedBy_append, Bool.and_eq_true]
+      exact ⟨d1, t1⟩
+    · simp only [WEv.ops, run_append]
+      exact t2
+
+theorem wrun_disciplined (a b : Nat) (s : PState) (hs : Synced s) (evs : List WEv) (h : WRun a b s evs) :
+    Disciplined s (evs.flatMap (WEv.ops a b)) = true := by
+  induction evs generalizing s with
+  | nil => rfl
+  | cons e es ih =>
+    obtain ⟨h1, h2⟩ := wev_step a b s hs e h.1
+    simp only [List.flatMap_cons]
+    unfold Disciplined
+    rw [disciplinedBy_append, Bool.and_eq_true]
+    exact ⟨h1, ih _ h2 h.2⟩
+
+theorem cands_written (s : PState) (t : List Op) :
+    ∀ m ∈ metaCands (s.run t), m ∈ metaCands s ∨ Op.atomicWrite META m ∈ t := by
+  induction t generalizing s with
+  | nil => intro m hm; exact Or.inl hm
+  | cons op t ih =>
+    intro m hm
+    rw [run_cons] at hm
+    rcases ih (s.step op) m hm with h | h
+    · by_cases hsync : op = .syncDir
+      · subst hsync
+        rw [metaCands_step_sync] at h
+        left
+        cases hv : (s.dir.atom META).visible with
+        | none => simp [hv] at h
+        | some b =>
+          simp only [hv, Option.toList_some, List.mem_singleton] at h
+          subst h
+          exact visible_mem_cands _ _ hv
+      · by_cases hw : ∃ b, op = .atomicWrite META b
+        · obtain ⟨b, rfl⟩ := hw
+          rw [metaCands_step_write] at h
+          rcases List.mem_append.mp h with h | h
+          · exact Or.inl h
+          · simp only [List.mem_singleton] at h
+            subst h
+            exact Or.inr (by simp)
+        · rw [metaCands_step_other s op hsync (fun b e => hw ⟨b, e⟩)] at h
+          exact Or.inl h
+    · exact Or.inr (List.mem_cons_of_mem _ h)
+
 end TantivyModel.CommitProtocol
